@@ -253,6 +253,8 @@ class PosSim:
         L, ro = self.L, self.r
         if not isinstance(t, tuple):
             return None
+        if t in getattr(self, 'assume_begin', ()):
+            return self.first_node()       # a loop-carried iterator variable proven to equal begin() when an iteration starts
         if t[0] == 'q' and t[2] == self.order:
             if t[1] in ('end', 'cend'):
                 return 'END'
@@ -447,7 +449,9 @@ class PosSim:
         if self.mark is not None and self.idx(node) == self.m + 1 and not moved_p:
             moved_p = True     # the partition iterator denotes this node: it travels with it
         d = e.dest
-        if isinstance(d, tuple) and d[0] == 'q' and d[1] in ('begin', 'cbegin') and d[2] == self.order and \
+        if d in getattr(self, 'assume_begin', ()) and not self.moved:
+            dest = 'BEGIN'       # loop-carried variable proven to hold begin() when the iteration starts (nothing moved since)
+        elif isinstance(d, tuple) and d[0] == 'q' and d[1] in ('begin', 'cbegin') and d[2] == self.order and \
                 (self.list_epoch is None or (d[4] or 0) == self.list_epoch):
             dest = 'BEGIN'
         else:
